@@ -78,6 +78,8 @@ Definition unwrap_opt {X} (o : option X) : res X :=
   match o with Some x => Ok x | None => Panic Unwrap end.
 """
 
+PINS = None        # pin mode (development): {module: {function: {construct: permutation}}} collected while translating
+
 def render_module(mod, ent, cache):
     L = ["(* gen/Src%s.v -- REGENERATED from the Rust source by driver/translate_src.py (rust2coq) on every check run." % mod,
          "   One definition s_<f> per translated function, in the state-passing style of the hand-written models. *)",
@@ -88,12 +90,16 @@ def render_module(mod, ent, cache):
     for spec in ent["funcs"]:
         rel = spec["file"]
         spec = dict(ent.get("spec", {}), **spec)
+        spec["state_orders"] = getattr(r2c_table, "STATE_ORDERS", {}).get(mod, {}).get(spec["name"], {})
         try:
             if rel not in cache:
                 cache[rel] = rust2coq.parse_file(_src(rel), rel)
             header, fn = rust2coq.find_fn(cache[rel], spec["impl"], spec["fn"], "%s (%s)" % (spec["name"], rel))
             tr = rust2coq.Translator(r2c_table, spec)
+            tr.items = cache[rel]                    # the items of the file: private helper methods of the same impl are inlined
+            if PINS is not None: tr.pins = {}
             gparams, term, rty = tr.function(fn, header)
+            if PINS is not None and tr.pins: PINS.setdefault(mod, {})[spec["name"]] = dict(sorted(tr.pins.items()))
         except TieBroken as e:
             # the definition is NOT emitted: the lemma src_<name> of Proofs/SrcEq<Module>.v no longer compiles, and the
             # message is returned to the caller of regenerate() (d["src_tie_broken"]); nothing is approximated
@@ -171,7 +177,34 @@ def src_tie_checks(modules):
             cov["src_lemmas_checked"] += len(summary.get(m, []))
     return out, cov
 
+def pin_state_orders():
+    """development, on the PRISTINE source: record for every loop / falling-through `if` with two or more state variables the
+    permutation from the canonical order (first assignment inside the construct) to the declaration order, and write the table
+    STATE_ORDERS at the end of driver/r2c_table.py (between the markers).  By construction the pristine source translates to
+    exactly the same Gallina with and without the table."""
+    global PINS
+    PINS = {}
+    render_all()
+    pins, PINS = PINS, None
+    path = os.path.join(os.path.dirname(os.path.abspath(__file__)), "r2c_table.py")
+    text = open(path).read()
+    a, b = "# >>> STATE_ORDERS (generated: translate_src.py --pin-state-orders)\n", "# <<< STATE_ORDERS\n"
+    L = [a, "STATE_ORDERS = {\n"]
+    for mod in sorted(pins):
+        L.append("    %r: {\n" % mod)
+        for fn in sorted(pins[mod]):
+            L.append("        %r: %r,\n" % (fn, pins[mod][fn]))
+        L.append("    },\n")
+    L += ["}\n", b]
+    block = "".join(L)
+    if a in text: text = text[:text.index(a)] + block + text[text.index(b) + len(b):]
+    else: text = text.rstrip("\n") + "\n\n" + block
+    open(path, "w").write(text)
+    return sum(len(v) for v in pins.values())
+
 if __name__ == "__main__":
+    if sys.argv[1:] == ["--pin-state-orders"]:
+        print("pinned the state orders of %d functions" % pin_state_orders()); sys.exit(0)
     # development: `translate_src.py [Module ..]` writes the files even when some function is refused (the definition is
     # then omitted and a comment names the reason)
     files, summary, broken = render_all(sys.argv[1:] or None)
